@@ -29,6 +29,26 @@ CLAIMED = {
   text="Proof (all ping-outcome sequences, by loop invariant): the keep-alive goroutine's counter equals the number of consecutive failed pings (ghost variable defined from ping results), Close is called at most once and exactly when that number reaches the threshold, a method-not-found answer ends keep-alive without closing and is never followed by another ping, every exit either passed through the select again or closed/ended for method-not-found (a failed ping is never dropped), the ticker is stopped on every exit, period = interval, ping context timeout = interval/2; the parent normalises the threshold to >= 1 before starting the goroutine.",
   note="Trusted: errors.Is model, select/receive modelled as nondeterministic choice, session.Ping/Close havocked (any behaviour). Not decided: wall-clock bound (derived on paper from period and timeout), goroutine scheduling, dropped ticks; that Server/Client.Connect start keep-alive and Close cancels it.",
   ref="DESIGN.md 10/C13"),
+ "C01": dict(
+  text="Proof over all schedules via "+mon+": a pending call is open, registered under its own id and has its own channel (K1,K1b); removal from the table completes the call (T2); completion is final (T3) and carries a response with the call's own id (T4); nothing is admitted after shutdown began (T5); once done is closed nothing is pending (K4); 'retire called twice' and the other protocol panics are unreachable in every action; Call draws exactly one fresh id (counter discipline) and never completes a call twice; mcp.call maps closing errors to ErrConnectionClosed and retires an abandoned call before returning.",
+  note=montrust+" Not decided: that a blocked Await is woken (Go runtime), promptness, liveness.",
+  ref="DESIGN.md 10.0, 10/C01"),
+ "C02": dict(
+  text="Proof: processResult answers a call at most once, removes it from the index before writing, echoes the request's id in the response it builds, maps not-handled/method-not-found to -32601, never answers a notification and releases the in-flight slot exactly once; the connection monitor shows indexed requests are never replaced (T7) and counted (K2b); ioConn.updateBatch returns the batch reply exactly when that batch's last call is resolved; ioConn.Read tracks exactly the calls of a batch (defect F2 found here, reproduced on the real code and repaired by a fix: commit).",
+  note=montrust+" Not yet under contract: checkRequest/unmarshalParams error codes, the HTTP pre-validation paths of the streamable and SSE transports, acceptRequest's four paths as one exactly-once statement.",
+  ref="DESIGN.md 10/C02"),
+ "C03": dict(
+  text="Proof: the dispatcher (handleAsync) starts a handler only after the previous handler's releaser channel is closed (loop invariant over a ghost variable; receive on a close-only channel), the handler goroutine releases only after Handle returned (deferred soft release) or when the handler itself called Async; releaser.release closes exactly once; ServerSession.handle calls Async at most once and only for calls other than initialize; the monitor gives FIFO-compatible queue discipline (nothing enqueued during shutdown, dispatcher owns the queue).",
+  note=montrust+" The releaser object invariant (released <=> channel closed) is assumed at entry of release. Not decided: FIFO order of the queue contents (T6), transports delivering bytes in order, ClientSession.handle, 'observed by the peer'.",
+  ref="DESIGN.md 10/C03"),
+ "C04": dict(
+  text="Proof: Connection.write marks the connection broken only when the failure is attributable neither to the caller's context nor to a transport rejection (so cancelled or rejected writes leave the session usable); mcp.call retires the abandoned call before returning, sends the cancellation notice only from a separate goroutine whose context keeps the caller's values, drops its cancellation and is bounded by the notification timeout; the monitor shows a late response to a retired call changes nothing (T3/T7) and Cancel's action only reads the index.",
+  note=montrust+" Not yet under contract: canceller.Preempt (maps notifications/cancelled to Cancel(id)), Connection.Cancel's use of the looked-up request. Not decided: promptness in time, stalled writers.",
+  ref="DESIGN.md 10/C04"),
+ "C05": dict(
+  text="Proof over all schedules via the connection monitor: the transport closer is consumed only when the connection is idle and shutting down, and at most once (T9, K7); done is closed only when additionally the reader is gone, and then stays closed (K4, T1); shutdown flags are monotone; nothing is enqueued and no call admitted during shutdown (T5, T5b); Notify gives back its pending-notification slot on every path exactly when it took one; the 'transitioned to non-idle when already done' and 'incoming count already zero' panics are unreachable.",
+  note=montrust+" Not decided (liveness / whole-history): that Close and Wait return, absence of deadlock and of leaked goroutines or timers; session-level Close ordering (ServerSession.Close, disconnect) not yet under contract.",
+  ref="DESIGN.md 10/C05"),
 }
 
 NOT_YET = "contracts not completed yet (build in progress; see DESIGN.md section 12)"
